@@ -118,8 +118,8 @@ def tla(v) -> str:
 
 
 TOK_BASE = ["GET", "HEAD", "HTTP/", "gemini:", "/", "x", "0", " ", "\t", "+", "!", "$", "#", "_", "^", "\r"]
-FAMB_LINES = dict(M={"GET", "HEAD", "x"}, S={" ", "\t"}, P={"/wap", "/wap/x", "/x", "x/wap", ""},
-                  V={"HTTP/1.0", "xHTTP/", "0"})
+FAMB_LINES = dict(M={"GET", "HEAD", "get", "x"}, S={" ", "\t"}, P={"/wap", "/wap/x", "/x", "x/wap", ""},
+                  V={"HTTP/1.0", "http/1.0", "xHTTP/", "0"})
 KINDS = {"AW", "AO", "XP", "XU", "NC", "BL"}
 
 
